@@ -28,6 +28,8 @@ class Client(object):
         self.cmd({"type": "bind", "appid": app, "side": side})
 
     def cmd(self, msg):
+        if self.c not in self.s.w.conns:      # the server dropped this connection (an exception escaped a handler)
+            return {"log": [], "exc": None}
         if self.s.rng.random() < 0.2:
             msg = dict(msg, id=self.s.rng.choice(["i1", "i2", None]))
         o = self.s.emit({"k": "cmd", "c": self.c, "msg": msg})
@@ -37,7 +39,8 @@ class Client(object):
     def drop(self):
         if self.c in self.s.cinfo:
             del self.s.cinfo[self.c]
-            self.s.emit({"k": "disconnect", "c": self.c})
+            if self.c in self.s.w.conns:
+                self.s.emit({"k": "disconnect", "c": self.c})
 
 
 def claim(s, app, side, name, keep=False):
@@ -136,6 +139,25 @@ def holes(s):
             d = r.choice(decoys)
             if d in held:
                 release(s, main, held.pop(d), d)
+        numeric = [n for n in numeric if n in held]
+        if r.random() < 0.5 and numeric:
+            # a differently spelled twin of a HELD canonical name (anything a numeric parser would fold onto it)
+            # is claimed and retired again -- by release or by closing its mailbox; the canonical one stays taken
+            n = r.choice(numeric)
+            twin = r.choice(["0%s", " %s", "+%s", "%s ", "00%s", "\u0660%s", "%s\n", "%s.0", "0x%s"]) % n
+            if twin not in held:
+                cl = claim(s, main, r.choice(sides), twin, keep=True)
+                if r.random() < 0.5:
+                    cl.cmd({"type": "release"})
+                else:
+                    o = None
+                    mb = s.cinfo.get(cl.c, {}).get("claimed_mailbox")
+                    if mb is not None:
+                        cl.cmd({"type": "open", "mailbox": mb})
+                        cl.cmd({"type": "close", "mood": "happy"})
+                    else:
+                        cl.cmd({"type": "release"})
+                cl.drop()
         for _ in range(r.choice([1, 2, 3])):
             side = r.choice(sides)
             got = allocate(s, main, side, then_claim=r.random() < 0.3)
@@ -202,6 +224,195 @@ def unicode_ids(s):
 
 
 SCRIPTS = {"holes": holes, "unicode": unicode_ids}
+
+
+# ---------------------------------------------------------------------- scale streams
+# Histories far beyond the ranges of the random walk (10-60 events, a handful of messages, mailboxes,
+# apps; minutes of virtual time): batching, paging, caching and age-based housekeeping code only
+# misbehaves past some size or age.  Each runs through gen.Session like every other history: full
+# trace, model comparison, all monitors.
+
+def _adv(s, dt, fault=False):
+    s.emit({"k": "advance", "dt": dt, "fault": fault})
+
+
+def scale_msgs(s):
+    """C01 C13 (C02): one mailbox holding hundreds of stored messages (several pages / batches of any
+    plausible size), replayed to a late second side, again after a restart, then abandoned and swept
+    (final quiesce) next to a small mailbox of the same and of another app"""
+    r = s.rng
+    n = [130, 520, 210, 640, 330][s.seed % 5]          # (every size within five consecutive seeds)
+    app = r.choice(["a1", "a2"])
+    c1 = Client(s, app, "s1")
+    c1.cmd({"type": "open", "mailbox": "mbig"})
+    small = Client(s, app, "s3")
+    small.cmd({"type": "open", "mailbox": "msmall"})
+    small.cmd({"type": "add", "phase": "p", "body": "00"})
+    oth = Client(s, "a3", "s1")
+    oth.cmd({"type": "open", "mailbox": "mbig"}) if False else oth.cmd({"type": "open", "mailbox": "mother"})
+    oth.cmd({"type": "add", "phase": "p", "body": "ff"})
+    for i in range(n):
+        c1.cmd({"type": "add", "phase": "p%d" % (i % 7), "body": "%04x" % i})
+        if i % 97 == 50:
+            _adv(s, r.choice([1, 8, 80]))
+    c2 = Client(s, app, "s2")
+    c2.cmd({"type": "open", "mailbox": "mbig"})            # replays n messages
+    c2.cmd({"type": "add", "phase": "x", "body": "01"})     # both subscribers get it
+    if r.random() < 0.5:
+        s.emit({"k": "restart"})
+        s.cinfo.clear()
+        c3 = Client(s, app, r.choice(["s1", "s2"]))
+        c3.cmd({"type": "open", "mailbox": "mbig"})        # replays n+1 messages
+    if r.random() < 0.3:
+        # retire it by the two closes instead of by expiry
+        for side in ("s1", "s2"):
+            c = Client(s, app, side)
+            c.cmd({"type": "close", "mailbox": "mbig", "mood": "happy"})
+        c4 = Client(s, app, "s1")
+        c4.cmd({"type": "open", "mailbox": "mbig"})        # deleted id: starts empty
+
+
+def scale_subs(s):
+    """C12 (C02): more than a hundred mailboxes of one app, each with a silent connected subscriber,
+    across several sweeps spanning more than the expiration time; nothing may expire, every subscriber
+    still gets its traffic; plus idle mailboxes that must go"""
+    r = s.rng
+    n = [117, 101, 205, 130][s.seed % 4]
+    app = "a1"
+    subs = []
+    for i in range(n):
+        c = Client(s, app, "s%d" % (i % 2 + 1))
+        c.cmd({"type": "open", "mailbox": "mb%03d" % i})
+        subs.append(c)
+        if i % 40 == 7:
+            _adv(s, r.choice([1, 8]))
+    idle = Client(s, app, "s1")
+    idle.cmd({"type": "open", "mailbox": "idle"})
+    idle.drop()
+    E, P = s.w.EXP, s.w.PERIOD
+    for k in range(E // P + 2):
+        _adv(s, P)
+    for c in r.sample(subs, 12) + [subs[-1], subs[-2], subs[0], subs[100]]:
+        c.cmd({"type": "add", "phase": "p", "body": "aa"})
+    for k in range(E // P + 1):
+        _adv(s, P + r.choice([0, 1]))
+    for c in [subs[-1], subs[n // 2], subs[99], subs[100]]:
+        c.cmd({"type": "add", "phase": "q", "body": "bb"})
+
+
+def scale_apps(s):
+    """C02 C06 C11: dozens of app ids known to one server process, with a bound-but-idle connection of
+    the first app across all of it; then two connections of that app must still share one mailbox"""
+    r = s.rng
+    n = [40, 33, 70][s.seed % 3]
+    a = Client(s, "x0", "s1")
+    if r.random() < 0.5:
+        a.cmd({"type": "claim", "nameplate": "1"})
+    others = []
+    for i in range(n):
+        c = Client(s, "app%02d" % i, "s1")
+        x = r.random()
+        if x < 0.4:
+            c.cmd({"type": "claim", "nameplate": "1"})
+        elif x < 0.6:
+            c.cmd({"type": "open", "mailbox": "m1"})
+        if r.random() < 0.7:
+            c.drop()
+        else:
+            others.append(c)
+        if i % 16 == 5:
+            _adv(s, s.w.PERIOD)
+    a.cmd({"type": "open", "mailbox": "mx"})
+    b = Client(s, "x0", "s2")
+    b.cmd({"type": "open", "mailbox": "mx"})
+    a.cmd({"type": "add", "phase": "p", "body": "01"})
+    b.cmd({"type": "add", "phase": "p", "body": "02"})
+    b.cmd({"type": "list"})
+    _adv(s, s.w.PERIOD)
+    a.cmd({"type": "add", "phase": "p", "body": "03"})
+
+
+def scale_time(s):
+    """C05 C07 C12 C15: a channel kept alive by one connected side for more than a day (its peer
+    released, closed and left long ago): the claim, both side records and the crowding decision must
+    be as on the first day; the final retirement still yields its usage records"""
+    r = s.rng
+    app = "a1"
+    name = r.choice(["1", "7", "n"])
+    c1 = Client(s, app, "s1")
+    o = c1.cmd({"type": "claim", "nameplate": name})
+    mbox = None
+    for e in o["log"]:
+        if e[0] == "F" and e[3] == "claimed" and isinstance(e[4], str):
+            mbox = bytes.fromhex(e[4]).decode("utf-8")
+    c1.cmd({"type": "open", "mailbox": mbox})
+    c2 = Client(s, app, "s2")
+    c2.cmd({"type": "claim", "nameplate": name})
+    c2.cmd({"type": "open", "mailbox": mbox})
+    c2.cmd({"type": "add", "phase": "pake", "body": "00"})
+    c1.cmd({"type": "add", "phase": "pake", "body": "01"})
+    x = r.random()
+    if x < 0.7:
+        c2.cmd({"type": "release"})
+    if x > 0.2:
+        c2.cmd({"type": "close", "mood": "happy"})
+    c2.drop()
+    P = s.w.PERIOD
+    day = 86400 * 8
+    t = 0
+    # a few sweeps at the normal period, then hour-sized steps (the subscriber keeps it alive), past one day
+    for k in range(4):
+        _adv(s, P)
+        t += P
+    while t < day + r.choice([1, 2, 5]) * 3600 * 8:
+        dt = r.choice([3600 * 8, 3600 * 8, 7200 * 8, P * 7])
+        _adv(s, dt)
+        t += dt
+        if r.random() < 0.15:
+            c1.cmd({"type": "add", "phase": "p", "body": "02"})
+    _adv(s, P)
+    c1.cmd({"type": "list"})
+    # a third side must still be refused; the second side still cannot re-claim after its release
+    c3 = Client(s, app, "s3")
+    c3.cmd({"type": "claim", "nameplate": name})
+    c3.cmd({"type": "open", "mailbox": mbox})
+    c3.drop()
+    c2b = Client(s, app, "s2")
+    c2b.cmd({"type": "claim", "nameplate": name})
+    c2b.drop()
+    _adv(s, P)
+    # the first side is still served
+    c1.cmd({"type": "add", "phase": "p", "body": "03"})
+    c1.cmd({"type": "release"})
+    c1.cmd({"type": "close", "mood": r.choice(["happy", "lonely"])})
+
+
+def scale_name(s):
+    """C17 C04: well-formed identifiers of thousands of characters -- a canonical decimal nameplate far
+    beyond any machine integer (and beyond Python's int<->str digit limit), long sides / mailbox ids /
+    bodies; allocate must keep working for everybody"""
+    r = s.rng
+    app = "a1"
+    big = ["1" + "0" * 4400, "9" * 4800, "12" * 2300][s.seed % 3]
+    c1 = Client(s, app, "s1")
+    c1.cmd({"type": "claim", "nameplate": big})
+    c2 = Client(s, app, "s2" + "x" * 700)
+    c2.cmd({"type": "allocate"})
+    c2.cmd({"type": "list"})
+    c2.cmd({"type": "claim", "nameplate": big})
+    c3 = Client(s, app, "s3")
+    c3.cmd({"type": "allocate"})
+    c3.cmd({"type": "open", "mailbox": "m" * 900})
+    c3.cmd({"type": "add", "phase": "p" * 500, "body": "ab" * 1500})
+    c3.cmd({"type": "close", "mailbox": "m" * 900, "mood": "happy"})
+    c1.cmd({"type": "release", "nameplate": big})
+    c2.cmd({"type": "release", "nameplate": big})
+    c4 = Client(s, app, "s1")
+    c4.cmd({"type": "allocate"})
+
+
+SCRIPTS.update({"scale-msgs": scale_msgs, "scale-subs": scale_subs, "scale-apps": scale_apps,
+                "scale-time": scale_time, "scale-name": scale_name})
 
 
 def run(name, session):
